@@ -60,11 +60,15 @@ func ToByteReader(r io.Reader) io.ByteReader {
 }
 
 func ToByteReadSeeker(r io.Reader) ByteReadSeeker {
-	if brs, ok := r.(ByteReadSeeker); ok {
-		return brs
-	}
 	if rs, ok := r.(io.ReadSeeker); ok {
-		return &readSeekerPlusByte{ReadSeeker: rs}
+		// Having a Seek method does not make a reader seekable: an *os.File may be a
+		// pipe, a socket or a terminal. Such a reader is read and discarded instead.
+		if _, err := rs.Seek(0, io.SeekCurrent); err == nil {
+			if brs, ok := r.(ByteReadSeeker); ok {
+				return brs
+			}
+			return &readSeekerPlusByte{ReadSeeker: rs}
+		}
 	}
 	return &discardingReadSeekerPlusByte{Reader: r}
 }
